@@ -295,16 +295,14 @@ Qed.
 Definition Inv (j : Z) : Prop :=
   forall j', 1 <= j' < j -> v j' < v (j' - 1) -> (inject_Z (S j') < F)%Q.
 
-Lemma first_lower : forall k j lowest, 1 <= j -> j + Z.of_nat k = n ->
-  match lowest with None => j = 1 | Some l => 2 <= j /\ l = v (j - 1) end ->
-  (j = 1 -> 1 < n -> v 1 < v 0 \/ (inject_Z (S 1) < F)%Q) ->
+Lemma first_lower : forall k j l, 1 <= j -> j + Z.of_nat k = n -> l = v (j - 1) ->
   Inv j ->
-  match hdr_first data m2m A false (zseqn j k) lowest f with
+  match hdr_first data m2m A false (zseqn j k) (Some l) f with
   | Some j' => j <= j' < n /\ Inv j' /\ (F <= inject_Z (S j'))%Q /\ v j' < v (j' - 1)
   | None => Inv n
   end.
 Proof.
-  induction k as [|k IH]; intros j lowest Hj Hk Hlow Htie HI.
+  induction k as [|k IH]; intros j l Hj Hk Hlow HI.
   - cbn [zseqn hdr_first]. replace n with j by lia. exact HI.
   - cbn [zseqn hdr_first]. cbv zeta. fold (v j).
     assert (Hstep : v j = v (j - 1) \/ (inject_Z (S j) < F)%Q ->
@@ -312,27 +310,22 @@ Proof.
               | Some j' => j <= j' < n /\ Inv j' /\ (F <= inject_Z (S j'))%Q /\ v j' < v (j' - 1)
               | None => Inv n
               end).
-    { intros Hcase. specialize (IH (j + 1) (Some (v j))). cbv beta iota in IH.
+    { intros Hcase. specialize (IH (j + 1) (v j)). cbv beta iota in IH.
       assert (HI' : Inv (j + 1)).
       { intros j' Hj' Hv. destruct (Z.eq_dec j' j) as [->|Hne]; [|apply HI; [lia|exact Hv]].
         destruct Hcase as [Hc|Hc]; [lia|exact Hc]. }
       destruct (hdr_first data m2m A false (zseqn (j + 1) k) (Some (v j)) f) as [j'|].
-      - destruct IH as (H1 & H2 & H3 & H4); [lia|lia| |intros; lia|exact HI'|].
-        + split; [lia|]. now replace (j + 1 - 1) with j by lia.
+      - destruct IH as (H1 & H2 & H3 & H4); [lia|lia| |exact HI'|].
+        + now replace (j + 1 - 1) with j by lia.
         + repeat split; [lia|lia|exact H2|exact H3|exact H4].
-      - apply IH; [lia|lia| |intros; lia|exact HI'].
-        split; [lia|]. now replace (j + 1 - 1) with j by lia. }
-    destruct (match lowest with Some l => l =? v j | None => false end) eqn:E.
-    + destruct lowest as [l|]; [|discriminate]. destruct Hlow as [Hj2 Hl].
-      assert (Hv : v j = v (j - 1)) by lia. replace l with (v j) by lia. apply Hstep. left; exact Hv.
+      - apply IH; [lia|lia| |exact HI']. now replace (j + 1 - 1) with j by lia. }
+    destruct (l =? v j) eqn:E.
+    + assert (Hv : v j = v (j - 1)) by lia. replace l with (v j) by lia. apply Hstep. left; exact Hv.
     + assert (Hseen : hdr_seen data m2m A false j = (inject_Z (S j) / inject_Z A)%Q).
       { unfold hdr_seen, hdr_low. now rewrite Z.mul_0_r, Z.sub_0_r. }
       rewrite Hseen. destruct (Qle_bool f (inject_Z (S j) / inject_Z A)) eqn:E2.
       * apply qle_div in E2; [|exact HA]. repeat split; [lia|lia|exact HI|exact E2|].
-        destruct lowest as [l|].
-        -- destruct Hlow as [Hj2 Hl]. assert (v j <= v (j - 1)) by (apply Hdesc; lia). lia.
-        -- subst j. destruct (Htie eq_refl ltac:(lia)) as [H|H]; [exact H|].
-           exfalso. apply (Qlt_not_le _ _ H). exact E2.
+        assert (v j <= v (j - 1)) by (apply Hdesc; lia). lia.
       * apply Hstep. right. apply Qnot_le_lt. intros H. apply (qle_div f (S j) A HA) in H. congruence.
 Qed.
 
@@ -340,7 +333,7 @@ Qed.
 (* the result for the fraction f, over this m2m *)
 Variable bs : Z.
 Definition one_gen (upper : bool) : hdr_out :=
-  match hdr_res data m2m A upper bs (zseqn 1 (length data - 1)) None f with
+  match hdr_res data m2m A upper bs (zseqn 1 (length data - 1)) (Some (v 0)) f with
   | Some o => o
   | None => hdr_rest data f
   end.
@@ -415,9 +408,9 @@ Theorem upper_gen :
     runs_ok (-1) ivs /\ forall i, covered ivs i <-> (0 <= i < n /\ (h < inject_Z (zget data i))%Q).
 Proof.
   cbv zeta. unfold one_gen, hdr_res. pose proof n_pos as Hn.
-  pose proof (first_upper (length data - 1) 1 None) as Hfst. cbv beta iota in Hfst.
-  destruct (hdr_first data m2m A true (zseqn 1 (length data - 1)) None f) as [j|].
-  - destruct Hfst as (H1 & H2 & H3); [lia|unfold n, zlen in *; lia|exact I|rewrite B_1; apply F_pos|].
+  pose proof (first_upper (length data - 1) 1 (Some (v 0))) as Hfst. cbv beta iota in Hfst.
+  destruct (hdr_first data m2m A true (zseqn 1 (length data - 1)) (Some (v 0)) f) as [j|].
+  - destruct Hfst as (H1 & H2 & H3); [lia|unfold n, zlen in *; lia|reflexivity|rewrite B_1; apply F_pos|].
     assert (Hamp := amp_at true j ltac:(lia)).
     assert (Hd : (0 < inject_Z (S j - j * hdr_low data m2m true j))%Q).
     { eapply Qlt_le_trans; [apply F_pos|exact H3]. }
@@ -430,7 +423,7 @@ Proof.
     + intros Hi. pose proof (top_range _ _ Hi) as Hr. split; [exact Hr|]. apply U3; assumption.
     + intros [Hr Hi]. apply U3; assumption.
   - assert (HB : (inject_Z (Bq n) < F)%Q).
-    { apply Hfst; [lia|unfold n, zlen in *; lia|exact I|rewrite B_1; apply F_pos]. }
+    { apply Hfst; [lia|unfold n, zlen in *; lia|reflexivity|rewrite B_1; apply F_pos]. }
     destruct (upper_common n _ ltac:(lia) amp_rest_at HB ltac:(lia)) as (U1 & U2 & U3).
     split; [exact U1|split; [exact U2|]]. intros ivs Hiv. unfold hdr_rest in Hiv. cbn [ho_iv] in Hiv.
     injection Hiv as <-. fold n. split; [cbn [runs_ok]; lia|]. intros i. split.
@@ -501,7 +494,6 @@ Proof.
 Qed.
 
 Theorem lower_gen :
-  (1 < n -> v 1 < v 0 \/ (inject_Z (S 1) < F)%Q) ->
   let o := one_gen false in let h := ho_amp o in
   exists L,
     (F <= inject_Z (level_area data L))%Q /\
@@ -510,12 +502,11 @@ Theorem lower_gen :
     forall ivs, ho_iv o = Some ivs ->
       runs_ok (-1) ivs /\ forall i, covered ivs i <-> (0 <= i < n /\ L <= zget data i).
 Proof.
-  intros Htie. cbv zeta. unfold one_gen, hdr_res. pose proof n_pos as Hn.
-  pose proof (first_lower (length data - 1) 1 None) as Hfst. cbv beta iota in Hfst.
+  cbv zeta. unfold one_gen, hdr_res. pose proof n_pos as Hn.
+  pose proof (first_lower (length data - 1) 1 (v 0)) as Hfst. cbv beta iota in Hfst.
   assert (HI1 : Inv 1) by (intros j' Hj'; lia).
-  destruct (hdr_first data m2m A false (zseqn 1 (length data - 1)) None f) as [j|].
-  - destruct Hfst as (H1 & H2 & H3 & H4);
-      [lia|unfold n, zlen in *; lia|reflexivity|intros _; exact Htie|exact HI1|].
+  destruct (hdr_first data m2m A false (zseqn 1 (length data - 1)) (Some (v 0)) f) as [j|].
+  - destruct Hfst as (H1 & H2 & H3 & H4); [lia|unfold n, zlen in *; lia|reflexivity|exact HI1|].
     destruct (lower_common j ltac:(lia) H2 H3 (fun _ => H4)) as (L1 & L2 & L3 & L4).
     exists (v (j - 1)). rewrite L1, L2. split; [exact H3|split; [exact L3|split]].
     + apply amp_at; [lia|]. unfold hdr_low. rewrite Z.mul_0_r, Z.sub_0_r.
@@ -526,7 +517,7 @@ Proof.
       * intros Hi. pose proof (top_range _ _ Hi) as Hr. split; [exact Hr|]. apply L4; assumption.
       * intros [Hr Hi]. apply L4; assumption.
   - assert (HIn : Inv n).
-    { apply Hfst; [lia|unfold n, zlen in *; lia|reflexivity|intros _; exact Htie|exact HI1]. }
+    { apply Hfst; [lia|unfold n, zlen in *; lia|reflexivity|exact HI1]. }
     assert (HS : (F <= inject_Z (S n))%Q) by (rewrite S_n, <- HAn; apply F_le_A).
     destruct (lower_common n ltac:(lia) HIn HS ltac:(lia)) as (L1 & L2 & L3 & L4).
     exists (v (n - 1)). rewrite L1, L2. split; [exact HS|split; [exact L3|split]].
@@ -571,17 +562,14 @@ Proof.
            HA eq_refl Hf0 Hf1 bs).
 Qed.
 
-(* only_upper_part = False, no tie that matters at the top *)
+(* only_upper_part = False *)
 Theorem hdr_level_is_definition data f bs :
-  Forall (fun d => 0 <= d) data -> 0 < zsum data -> (0 < f)%Q -> (f <= 1)%Q -> no_top_tie data f ->
+  Forall (fun d => 0 <= d) data -> 0 < zsum data -> (0 < f)%Q -> (f <= 1)%Q ->
   exists o, highest_density_region data [f] false bs = Ok [o] /\ hdr_level_result data f o.
 Proof.
-  intros Hnn HA Hf0 Hf1 Htie. exists (hdr_one data f false bs). split; [apply hdr_single, HA|].
-  apply (lower_gen data (rev (argsort data)) (m2m_perm data) (m2m_desc data) Hnn (zsum data) f
+  intros Hnn HA Hf0 Hf1. exists (hdr_one data f false bs). split; [apply hdr_single, HA|].
+  exact (lower_gen data (rev (argsort data)) (m2m_perm data) (m2m_desc data) Hnn (zsum data) f
            HA eq_refl Hf0 Hf1 bs).
-  intros Hn. destruct Htie as [Hu|Hs].
-  - left. apply (tie_ok data _ (m2m_perm data) (m2m_desc data) Hu Hn).
-  - right. rewrite (S_1 data _ (m2m_perm data) (m2m_desc data)) by (clear - Hn; lia). apply Hs.
 Qed.
 
 (* ascending fraction lists: every fraction independently *)
@@ -608,22 +596,36 @@ Proof. repeat split; vm_compute; reflexivity. Qed.
 Example hdr_level_example :
   highest_density_region hdr_ex_data [(2 # 3)%Q] false 10 = Ok [hdr_ex_level] /\
   ho_iv hdr_ex_level = Some [(1, 3)] /\ (ho_amp hdr_ex_level == 1 # 2)%Q /\
-  level_area hdr_ex_data 2 = 5 /\ level_area hdr_ex_data 3 = 3 /\ no_top_tie hdr_ex_data (2 # 3).
+  level_area hdr_ex_data 2 = 5 /\ level_area hdr_ex_data 3 = 3.
 Proof.
-  repeat split; try (vm_compute; reflexivity). left. exists 1. split; [vm_compute; split; congruence|].
-  intros k Hk Hne. unfold zlen, hdr_ex_data in Hk. cbn [length] in Hk.
-  assert (k = 0 \/ k = 2 \/ k = 3) as [->|[->| ->]] by lia; vm_compute; reflexivity.
+  repeat split; vm_compute; reflexivity.
 Qed.
 
-(* the level-set statement is false when the largest sample is tied and one of the tied samples
-   holds the fraction: j = 1 is never skipped (lowest_sample_seen starts at infinity) *)
-Theorem hdr_level_tie_refuted :
+(* a tie at the top is a level like every other (repaired code, /repo 2181c25) *)
+Example hdr_level_tie_example :
+  ho_iv (hdr_one [3; 1; 3; 0] (1 # 4) false 10) = Some [(0, 1); (2, 3)].
+Proof. vm_compute. reflexivity. Qed.
+
+(* Documentation of the pinned tree (before /repo 2181c25): lowest_sample_seen started at infinity
+   (None), so the tie test never skipped j = 1 and a tied largest sample was cut: the level-set
+   statement was false there *)
+Definition highest_density_region_pinned (data : list Z) (fs : list Q) (upper : bool) (bs : Z)
+  : res (list hdr_out) :=
+  let area_tot := zsum data in
+  if area_tot <=? 0 then Err 1
+  else
+    let n := zlen data in
+    let m2m := rev (argsort data) in
+    let '(outs, rem) := hdr_loop data m2m area_tot upper bs (zseqn 1 (length data - 1)) None fs in
+    Ok (outs ++ map (fun fd => mkho (Some [(0, n)]) ((1 - fd) * inject_Z area_tot / inject_Z n)%Q) rem).
+
+Theorem hdr_level_tie_pinned_refuted :
   exists data f bs o,
     Forall (fun d => 0 <= d) data /\ 0 < zsum data /\ (0 < f)%Q /\ (f <= 1)%Q /\
-    highest_density_region data [f] false bs = Ok [o] /\ ho_iv o = Some [(2, 3)] /\
+    highest_density_region_pinned data [f] false bs = Ok [o] /\ ho_iv o = Some [(2, 3)] /\
     ~ hdr_level_result data f o.
 Proof.
-  exists [3; 1; 3; 0], (1 # 4)%Q, 10, (hdr_one [3; 1; 3; 0] (1 # 4) false 10).
+  eexists [3; 1; 3; 0], (1 # 4)%Q, 10, _.
   split; [repeat constructor; lia|]. split; [vm_compute; reflexivity|].
   split; [reflexivity|]. split; [discriminate|].
   split; [vm_compute; reflexivity|]. split; [vm_compute; reflexivity|].
@@ -632,12 +634,4 @@ Proof.
   { destruct (proj1 (Hc 2)) as [_ H2]; [exists 2, 3; split; [left; reflexivity|lia]|exact H2]. }
   destruct (proj2 (Hc 0)) as (s & e & [Heq|[]] & Hi); [split; [vm_compute; split; congruence|exact HL]|].
   injection Heq as <- <-. lia.
-Qed.
-
-Corollary hdr_level_full_refuted :
-  ~ (forall data f bs, Forall (fun d => 0 <= d) data -> 0 < zsum data -> (0 < f)%Q -> (f <= 1)%Q ->
-       exists o, highest_density_region data [f] false bs = Ok [o] /\ hdr_level_result data f o).
-Proof.
-  intros Hfull. destruct hdr_level_tie_refuted as (data & f & bs & o & H1 & H2 & H3 & H4 & H5 & _ & H6).
-  destruct (Hfull data f bs H1 H2 H3 H4) as (o' & E & Hr). rewrite H5 in E. injection E as <-. exact (H6 Hr).
 Qed.
